@@ -33,6 +33,7 @@ LOGGER = 'sarpy.io.phase_history.cphd'     # CRSDWritingDetails inherits verify_
 K_SEPARATOR = 'header-string-with-separator-unreadable'
 K_AMPSF = 'refused-pvp-rewrite-replaces-ampsf'
 K_LINEBREAK = 'header-string-with-line-break-unreadable'
+K_HETERO = 'support-array-heterogeneous-element-format-refused'
 
 # theorems of lean/SarpyModel/Props/C09W.lean (namespace Sarpy.Props.C09) about Spec.CphdWriter
 REQUIRED_W = [
@@ -47,11 +48,39 @@ REQUIRED_W = [
     'packed_ranges_lower', 'packed_ranges_ordered', 'wf_of_layout', 'rewrite_counter_example',
     # C09Amp.lean: which AmpSF a formatted chunk is encoded with
     'writePvp_out', 'amp_after_accepted_pvp', 'amp_unchanged', 'chunk_scaled_by_current_amp', 'amp_is_last_accepted',
-    'formatted_chunk_uses_last_accepted_pvp']
+    'formatted_chunk_uses_last_accepted_pvp',
+    # order of effects: the recorded bytes are the bytes handed over at the accepted write, and stay
+    'bytes_stable_step', 'bytes_stable_run', 'accepted_sup_write_records_handed_bytes', 'accepted_pvp_write_records_handed_bytes']
 # restatements for the CRSD instantiation in lean/SarpyModel/Props/C11W.lean (namespace Sarpy.Props.C11)
 REQUIRED_W11 = ['crsd_headerBytes_length', 'crsd_text_file_wellformed', 'crsd_retry_terminates_7', 'chooseCrsd_terminates_7',
                 'crsd_write_after_close_refused', 'crsd_refused_keeps_file', 'crsd_fo_log_shape', 'crsd_close_report_exact', 'crsd_complete_image',
-                'crsd_formatted_chunk_uses_last_accepted_pvp']
+                'crsd_formatted_chunk_uses_last_accepted_pvp', 'crsd_accepted_sup_write_records_handed_bytes']
+
+
+BYTE_ORDERS = ['>', '<', '=']          # big-endian (the file's), little-endian, native: the caller's arrays may come in any of them
+FORMS = ['tuple', 'int', 'short', 'sub', 'sub1', 'subN']
+
+
+def reorder(arr, order):
+    """the same VALUES in an array of another byte order (what a caller holding native numpy arrays hands over)"""
+    if order is None or order == '>':
+        return arr
+    return arr.astype(arr.dtype.newbyteorder(order))
+
+
+def place_kwargs(form, a, b, raw, ns):
+    """the documented ways to say where a chunk of the rows a..b goes: start_indices as tuple / scalar / short tuple, or subscript="""
+    if form == 'int':
+        return {'start_indices': a}                      # scalar form (0 for the first chunk)
+    if form == 'short':
+        return {'start_indices': (a, )}
+    if form == 'sub':
+        return {'subscript': (slice(a, b, 1), slice(0, ns, 1), slice(0, 2, 1)) if raw else (slice(a, b, 1), slice(0, ns, 1))}
+    if form == 'sub1':
+        return {'subscript': (slice(a, b, 1), )}
+    if form == 'subN':
+        return {'subscript': (slice(a, b), slice(None), slice(None)) if raw else (slice(a, b), slice(None))}
+    return {'start_indices': (a, 0, 0) if raw else (a, 0)}
 
 
 class Proxy:
@@ -97,7 +126,7 @@ def gen_case(rng, kind):
     amp = rng.random() < 0.5
     nsup = rng.choice([0, 1, 2])
     if kind == 'CPHD':
-        sup = [(rng.randint(1, 4), rng.randint(1, 4)) for _ in range(nsup)]
+        sup = [(rng.randint(1, 4), rng.randint(1, 4), rng.choice(sorted(crsdgen.SUPPORT_KINDS_CPHD))) for _ in range(nsup)]
     else:
         sup = [(rng.randint(1, 4), rng.randint(1, 4), rng.choice(sorted(crsdgen.SUPPORT_KINDS))) for _ in range(nsup)]
     release = rng.choice(['UNRESTRICTED'] * 4 + ['R' * rng.randint(700, 1000)])
@@ -181,6 +210,11 @@ def gen_ops(rng, case, nchan, nsup, rows):
     ops.append({'op': 'C'})
     if rng.random() < 0.3:
         ops.append({'op': 'C'})
+    for op in ops:
+        if op['op'] in ('P', 'S', 'G'):
+            op['order'] = rng.choice(BYTE_ORDERS)       # byte order of the caller's array (raw signal, PVP, support)
+        if op['op'] == 'G':
+            op['form'] = rng.choice(FORMS + ['int', 'int'])
     return ops
 
 
@@ -246,14 +280,14 @@ def run_history(case, tmpdir):
                     if op.get('short'):
                         arr = numpy.concatenate([arr, arr[:1]])
                     obs['data'][n] = arr.tobytes()
-                    w.write_pvp_array(ident if op['by'] == 'name' else i, arr)
+                    w.write_pvp_array(ident if op['by'] == 'name' else i, reorder(arr, op.get('order')))
                     if has_amp and i < nchan and not op.get('short'):
                         cur_amp[chan_ids[i]], cur_tag[chan_ids[i]] = numpy.array(arr['AmpSF']), n
                 elif op['op'] == 'S':
                     j = op['j']
                     arr = (sup2 if op.get('variant') else support)[sup_ids[j]]
                     obs['data'][n] = numpy.ascontiguousarray(arr).tobytes()
-                    w.write_support_array(sup_ids[j] if op['by'] == 'name' else j, arr)
+                    w.write_support_array(sup_ids[j] if op['by'] == 'name' else j, reorder(arr, op.get('order')))
                 elif op['op'] == 'G':
                     i, a, b = op['i'], op['a'], op['b']
                     ci = i if i < nchan else 0
@@ -269,10 +303,11 @@ def run_history(case, tmpdir):
                         ach = None if not has_amp else (numpy.ones((b - a,), dtype='float64') if cur_amp[k] is None else cur_amp[k][a:b])
                     obs['data'][n] = numpy.ascontiguousarray(chunk).tobytes()
                     idx = (k if op['by'] == 'name' else ci) if i < nchan else i
+                    where = place_kwargs(op.get('form', 'tuple'), a, b, op['raw'], src.shape[1])
                     if op['raw']:
-                        w.write_raw(chunk, start_indices=(a, 0, 0), index=idx)
+                        w.write_raw(reorder(chunk, op.get('order')), index=idx, **where)
                     else:
-                        w.write(cphdgen.formatted(chunk, ach), start_indices=(a, 0), index=idx)
+                        w.write(cphdgen.formatted(chunk, ach), index=idx, **where)
                         obs['scaled'][k].append((a, b - a, cur_tag[k]))
                 elif op['op'] == 'F':
                     w.flush()
@@ -778,6 +813,39 @@ def finding_probes(kind, tmpdir):
                 rdr.close()
         except Exception as e:
             fails.append({'kind': 'write', 'msg': f'header string probe ({release!r}) raised {type(e).__name__}: {e}', 'case': case, 'key': None})
+    # (1b) an added support array whose element format has components of different types (`A=F4;B=I2;`: one structured element of 6 bytes,
+    #      allowed by the standard's binary format grammar) must be written and read back like any other
+    case = {'kind': kind, 'fmt': 'CI2', 'sizes': [(2, 3)], 'amp_sf': False, 'support': [(3, 2, 'ADD_F8')], 'release_info': 'UNRESTRICTED', 'target': 'path',
+            'style': 'probe', 'seed': 3, 'element_format': crsdgen.HETEROGENEOUS[0]}
+    try:
+        g, meta = build(case)
+        efmt, dt, bpe, _ = crsdgen.HETEROGENEOUS
+        meta.SupportArray.AddedSupportArray[0].ElementFormat = efmt
+        meta.Data.SupportArrays[0].BytesPerElement = bpe
+        ident = meta.Data.SupportArrays[0].Identifier
+        rng = random.Random(3)
+        pvp, raw = g.make_pvp(meta, rng), g.make_raw(meta, rng)
+        arr = numpy.zeros((3, 2), dtype=dt)
+        arr['A'] = numpy.arange(6).reshape((3, 2)) * 0.5
+        arr['B'] = numpy.arange(6).reshape((3, 2)) - 2
+        if os.path.exists(path):
+            os.remove(path)
+        try:
+            w = Writer(path, meta.copy(), check_existence=False)
+            w.write_file_raw(pvp, raw, {ident: arr})
+            w.close()
+            rdr = opener(path)
+            try:
+                got = numpy.asarray(rdr.read_support_array(ident))
+            finally:
+                rdr.close()
+            if got.tobytes() != arr.tobytes() or got.shape[:2] != arr.shape:
+                fails.append({'kind': 'data', 'msg': f'{kind}: support array with the heterogeneous element format {efmt!r} differs after write/read', 'case': case, 'key': K_HETERO})
+        except Exception as e:
+            fails.append({'kind': 'write', 'msg': f'{kind}: a support array with the heterogeneous element format {efmt!r} cannot be written / read: '
+                                                   f'{type(e).__name__}: {str(e)[:120]}', 'case': case, 'key': K_HETERO})
+    except Exception as e:
+        fails.append({'kind': 'write', 'msg': f'heterogeneous support array probe raised {type(e).__name__}: {e}', 'case': case, 'key': None})
     # (2) in memory: a refused second write_pvp_array must not change what later formatted signal writes store
     case = {'kind': kind, 'fmt': 'CI4', 'sizes': [(2, 3)], 'amp_sf': True, 'support': [], 'release_info': 'UNRESTRICTED', 'target': 'bytesio',
             'style': 'probe', 'seed': 2}
